@@ -26,7 +26,7 @@ STUBS = ['in-memory pipes between FakeTransports', 'task.Clock as reactor']
 
 def obligations(tier):
     obs = []
-    for kind in ('swap', 'mixed', 'raise', 'void', 'list1', 'struct1', 'list2', 'overload', 'overload-kw'):
+    for kind in ('swap', 'mixed', 'raise', 'void', 'list1', 'struct1', 'list2', 'overload', 'overload-kw', 'overload-seq'):
         for intro in (False, True):
             obs.append(Ob('values:%s:%s' % (kind, 'introspected' if intro else 'explicit'), 'values',
                           {'kind': kind, 'intro': intro}, timeout=900, path_timeout=120, twin=True, functions=FUNCS,
@@ -213,7 +213,7 @@ def build(family, p):
     if family == 'values':
         kind, intro = p['kind'], p['intro']
 
-        if kind in ('overload', 'overload-kw'):
+        if kind in ('overload', 'overload-kw', 'overload-seq'):
             params = [('a', int), ('b', str)]
         elif kind in ('swap', 'raise'):
             params = [('a', int), ('b', int)]
@@ -221,6 +221,37 @@ def build(family, p):
             params = [('a', int), ('b', str)]
         else:
             params = [('a', int), ('b', int)]
+
+        SEQ_IF = [None, 'org.t.Calc', 'org.t.Calc2']
+
+        def h_seq(a, b):
+            # three calls of the shared member through ONE proxy; each names no interface, the first or the second
+            sel = decode_choice(a, [3, 3, 3])
+            with notrace():
+                run_seq(sel, 'x\u20ac')
+            reached()
+
+        def run_seq(sel, b):
+            net, cl, obj, proxies = world(2, intro, [_cls['I'], _cls['I2']])
+            message.DBusMessage._nextSerial = 5000
+            px = proxies[0]
+            for k in sel:
+                out = []
+                obj.log[:] = []
+                if SEQ_IF[k] is None:
+                    d = px.callRemote('Tag', b)
+                else:
+                    d = px.callRemote('Tag', b, interface=SEQ_IF[k])
+                d.addCallbacks(lambda v: out.append(('ok', v)), lambda f: out.append(('err', f.value)))
+                net.pump()
+                second = SEQ_IF[k] == 'org.t.Calc2'      # no interface named: the first one that has the member
+                check(len(out) == 1 and len(obj.log) == 1, 'the call did not run and complete exactly once')
+                check(obj.log[0] == (('Tag2', b) if second else ('Tag', b)),
+                      'an earlier call through the same proxy changed which interface a call is sent to')
+                check(out[0] == ('ok', ('two:' if second else 'tag:') + b), 'caller did not receive what the chosen method returned')
+        h_seq.__name__ = 'values'
+        if kind == 'overload-seq':
+            return Spec(h_seq, params, witnesses=[(0, 'a'), (26, '€'), (2 * 9 + 0 * 3 + 0, 'x'), (1 * 9 + 2 * 3 + 0, 'y')])
 
         def h(a, b):
             if kind in ('mixed', 'overload', 'overload-kw'):
